@@ -10,6 +10,7 @@ import RSSched.Driver.Sched
 import RSSched.Driver.Swaps
 import RSSched.Driver.Mcf
 import RSSched.Driver.Serve
+import RSSched.Driver.Search
 open RSSched RSSched.Driver
 
 def processCase (text : String) : Array String :=
@@ -26,6 +27,7 @@ def processCase (text : String) : Array String :=
     | "swaps" => checkSwaps c
     | "mcf" => checkMcf c
     | "serve" => checkServe c
+    | "search" => checkSearch c
     | s => vnote s!"unknown scope {s}"
   let (_, v) := act.run {}
   let status := if v.fails > 0 then "fail" else if v.diffs > 0 then "diff" else "ok"
